@@ -383,3 +383,47 @@ def c05_styling(e):
     t.copy_styles(c)
     t.highlight_words(["a", "b "], "hw")
     return ok and t.plain == ref.plain and len(t) == L
+
+
+# --- divide / slice with symbolic offsets and symbolic spans (S, CrossHair) ---------------------------------------------------
+from vf.obl import xh  # noqa: E402
+
+_DIV_PLAIN = "ab中d"
+
+
+def _pre_div(a: int, b: int, o1: int, o2: int) -> bool:
+    n = len(_DIV_PLAIN)
+    return 0 <= a <= b <= n and 0 <= o1 <= o2 <= n
+
+
+@xh("C05-divide-symbolic-offsets", pre=_pre_div, timeout=900, kind="S", functions=["rich/text.py:Text.divide", "rich/text.py:Span.split"],
+    stubs=["S2", "S4"],
+    bounds="Text('ab<wide>d') with a fixed span (1,3) and a span whose start/end are symbolic integers (0<=start<=end<=4) "
+           "divided at two symbolic offsets 0<=o1<=o2<=4: the three pieces concatenate to the text, and every character keeps exactly "
+           "the ordered span styles it had",
+    outside="longer strings; more than two spans or offsets (the enumerated C05/C02 obligations cover other strings)")
+def c05_divide_sym(a: int, b: int, o1: int, o2: int) -> bool:
+    c, d = 1, 3
+    t = Text(_DIV_PLAIN, spans=[Span(a, b, "s1"), Span(c, d, "s2")])
+    lines = t.divide([o1, o2])
+    if len(lines) != 3:
+        return False
+    starts = [0, o1, o2]
+    pos = 0
+    for line, start in zip(lines, starts):
+        for i in range(len(line.plain)):
+            g = pos
+            if line.plain[i] != _DIV_PLAIN[g]:
+                return False
+            want = []
+            if a <= g < b:
+                want.append("s1")
+            if c <= g < d:
+                want.append("s2")
+            got = [sp.style for sp in line._spans if sp.start <= i < sp.end]
+            if got != want:
+                return False
+            pos += 1
+        if len(line) != len(line.plain):
+            return False
+    return pos == len(_DIV_PLAIN)
